@@ -1,5 +1,5 @@
-(* C32/Witness.v — concrete runs: the two known deviations (the full statement is false on this tree) and a
-   non-trivial run that meets the hypotheses of the partial theorem. *)
+(* C32/Witness.v — concrete runs: the witnesses of the two repaired findings, and a non-trivial run that meets
+   the hypotheses of the theorem. *)
 From Coq Require Import List NArith Bool Lia.
 Import ListNotations.
 From ZV Require Import Base.Bytes C32.Model C32.Spec C32.Facts C32.Proofs.
@@ -15,33 +15,16 @@ Definition peer_claims (k : N) (path : N) : sigm :=
 Definition cf_sig : cfg := {| c_dest := DWell; c_pi := 0; c_pm := Some 0 |}.
 
 (* the statement at full strength: for every bus history and every schedule *)
-(* C32_full_statement *)
-Definition C32_full_statement : Prop :=
-  forall cf h sched, bus_history cf h = true ->
-    let w := run cf h sched in
-    (exists rest, spec_yield cf (w_start w) h = yielded w ++ rest) /\
-    (w_todo w = [] -> drained w -> yielded w = spec_yield cf (w_start w) h).
-
-(* ---- known finding 1: the name is released right after the lookup answer, both are read before
-        SignalStream::new runs again: the buffered notification is dropped, the former owner is still trusted *)
+(* ---- the two former known findings, repaired: both witnesses now run as the specification says *)
+(* 1. (fix 902c9069) the name is released right after the lookup answer and both messages are read before
+      SignalStream::new runs again: the buffered release is applied, the former owner's signal (5) is not yielded *)
 Definition h_release : list wmsg :=
   [WRep PPlain; WRep (POwner 1); WSig (driver_says (Some 1) None); WRep PPlain; WSig (sig_from 1 0 0)].
 Definition sched_release : list action :=
   [AClient; ATick; AClient; ATick; ATick; AClient; ATick; AClient; ATick; APoll].
 
-Lemma release_buffered_refuted :
-  bus_history cf_sig h_release = true /\ forgeable cf_sig h_release = false /\
-  let w := run cf_sig h_release sched_release in
-  w_lost w = true /\ yielded w = [5] /\ spec_yield cf_sig (w_start w) h_release = [].
-Proof. vm_compute. repeat split; reflexivity. Qed.
-
-(* the same history, the notification read one step later: correct *)
-Lemma release_later_ok :
-  let w := run cf_sig h_release [AClient; ATick; AClient; ATick; AClient; ATick; ATick; AClient; ATick; APoll] in
-  w_lost w = false /\ yielded w = [] /\ spec_yield cf_sig (w_start w) h_release = [].
-Proof. vm_compute. repeat split; reflexivity. Qed.
-
-(* ---- known finding 2: a proxy whose own interface is org.freedesktop.DBus *)
+(* 2. (fix 0bffda5d) a proxy whose own interface is org.freedesktop.DBus: a peer's NameOwnerChanged on the
+      proxy's path is dropped, the owner's signal (5) is yielded, the stranger's (6) is not *)
 Definition cf_dbus : cfg := {| c_dest := DWell; c_pi := I_DBUS; c_pm := None |}.
 Definition h_forge : list wmsg :=
   [WRep PPlain; WRep (POwner 1); WRep PPlain; WSig (peer_claims 2 P_OBJ); WSig (sig_from 1 I_DBUS 0);
@@ -49,21 +32,21 @@ Definition h_forge : list wmsg :=
 Definition sched_one_by_one (n : nat) : list action :=
   AClient :: flat_map (fun _ => [ATick; AClient]) (seq 0 n) ++ repeat APoll n.
 
-Lemma dbus_iface_forgery_refuted :
-  bus_history cf_dbus h_forge = true /\ forgeable cf_dbus h_forge = true /\
-  let w := run cf_dbus h_forge (sched_one_by_one 6) in
-  w_lost w = false /\ yielded w = [6] /\ spec_yield cf_dbus (w_start w) h_forge = [5].
-Proof. vm_compute. repeat split; reflexivity. Qed.
-
-Lemma full_statement_refuted : ~ C32_full_statement.
+Lemma repaired_histories :
+  (bus_history cf_sig h_release = true /\
+   let w := run cf_sig h_release sched_release in
+   w_todo w = [] /\ drained w /\ yielded w = [] /\ spec_yield cf_sig (w_start w) h_release = []) /\
+  (bus_history cf_dbus h_forge = true /\
+   let w := run cf_dbus h_forge (sched_one_by_one 6) in
+   w_todo w = [] /\ drained w /\ yielded w = [5] /\ spec_yield cf_dbus (w_start w) h_forge = [5]).
 Proof.
-  intro H. specialize (H cf_sig h_release sched_release).
-  destruct release_buffered_refuted as (Hb & _ & _ & Hy & Hs).
-  destruct (H Hb) as [[rest Hp] _]. cbv zeta in Hy, Hs. rewrite Hy, Hs in Hp. discriminate.
+  split; (split; [vm_compute; reflexivity|]); cbv zeta;
+    (split; [vm_compute; reflexivity|]); (split; [|split; vm_compute; reflexivity]);
+    unfold drained; vm_compute; eexists; reflexivity.
 Qed.
 
-(* ---- non-vacuity: owner, former owner, stranger, an ownership change and two forged claims; the run lies
-        outside both classes and yields exactly the two signals the owner of the moment sent *)
+(* ---- non-vacuity: owner, former owner, stranger, an ownership change and two forged claims; the run
+        yields exactly the two signals the owner of the moment sent *)
 Definition h_clean : list wmsg :=
   [WRep PPlain; WSig (driver_says None (Some 1)); WRep (POwner 1); WRep PPlain;
    WSig (sig_from 1 0 0); WSig (sig_from 2 0 0); WSig (peer_claims 3 P_DRIVER); WSig (sig_from 3 0 0);
@@ -74,14 +57,13 @@ Definition sched_clean : list action :=
    ATick; APoll; ATick; ATick; ATick; APoll; APoll; APoll].
 
 Lemma clean_example :
-  bus_history cf_sig h_clean = true /\ ~ Known_C32 cf_sig h_clean sched_clean /\
+  bus_history cf_sig h_clean = true /\
   let w := run cf_sig h_clean sched_clean in
   w_todo w = [] /\ drained w /\ yielded w = [5; 11] /\ spec_yield cf_sig (w_start w) h_clean = [5; 11].
 Proof.
-  split; [vm_compute; reflexivity|]. split.
-  - intros [H|H]; vm_compute in H; discriminate.
-  - cbv zeta. split; [vm_compute; reflexivity|]. split; [|split; vm_compute; reflexivity].
-    unfold drained. vm_compute. eexists. reflexivity.
+  split; [vm_compute; reflexivity|].
+  cbv zeta. split; [vm_compute; reflexivity|]. split; [|split; vm_compute; reflexivity].
+  unfold drained. vm_compute. eexists. reflexivity.
 Qed.
 
 (* forged claims change nothing: the clean history with the two claims replaced by noise *)
